@@ -91,6 +91,12 @@ def linear_form(t):
                 if len(rest) == 0:
                     const += c * nums
                     return
+                if nums != 1:
+                    prod = rest[0]
+                    for r_ in rest[1:]:
+                        prod = prod * r_
+                    add(prod, c * nums)  # numeral coefficient pulled out of a non-linear product (the product is the atom)
+                    return
             if k == z3.Z3_OP_DIV:
                 d = _num_value(e.arg(1))
                 if d is not None and d != 0:
@@ -146,6 +152,16 @@ def _trig_apps(terms):
 OPAQUE = z3.Bool("c12!trig-applications-stay-opaque")
 
 
+def _is_pi_times_int(atom):
+    """atom is syntactically pi * ToReal(int term) [* ToReal(int term)...]"""
+    if not (z3.is_app(atom) and atom.decl().kind() == z3.Z3_OP_MUL):
+        return False
+    ch = atom.children()
+    n_pi = sum(1 for c in ch if c.get_id() == V.PI.get_id())
+    others = [c for c in ch if c.get_id() != V.PI.get_id()]
+    return n_pi == 1 and others and all(z3.is_app(c) and c.decl().kind() == z3.Z3_OP_TO_REAL for c in others)
+
+
 def trig_facts(terms, max_facts=4000):
     """Ground instances of the angle-addition schemas that reduce every occurring cos/sin of a linear combination of
     angle atoms to cos/sin of the atoms.  Returns a list of z3 facts (each one an instance of a textbook identity with
@@ -177,6 +193,17 @@ def trig_facts(terms, max_facts=4000):
                 c = Fraction(c.numerator)
             items2.append((atom, c))
         items = items2
+        # whole periods: an atom pi*K with K integer-valued (ToReal of an Int term) and an even integer coefficient
+        per = [(atom, c) for atom, c in items if c % 2 == 0 and _is_pi_times_int(atom)]
+        if per:
+            rest = arg
+            for atom, c in per:
+                rest = rest - _rv(c) * atom
+            rest = z3.simplify(rest)
+            # textbook: cos(t + 2 pi k) = cos t, sin(t + 2 pi k) = sin t for integer k (k = (c/2)*K is an integer term here)
+            emit(z3.BoolVal(True), COS(arg) == COS(rest), SIN(arg) == SIN(rest))
+            need(rest)
+            return
         if not items:
             emit(arg == 0, COS(arg) == 1, SIN(arg) == 0)
             return
